@@ -105,6 +105,19 @@ func scenario(spec *bk.Spec, seq []int, bound int) *sched.Config {
 				ref.Put(s)
 			}
 			uncertain := map[string]hs.Blob{}
+			opStart := 0 // index into faultLog where the current client op began
+			sitesFrom := func(from int) string {
+				seen := map[string]bool{}
+				var u []string
+				for _, f := range faultLog[from:] {
+					if !seen[f] {
+						seen[f] = true
+						u = append(u, f)
+					}
+				}
+				sort.Strings(u)
+				return "faults=" + strings.Join(u, ",")
+			}
 			sites := func() string {
 				seen := map[string]bool{}
 				var u []string
@@ -118,12 +131,14 @@ func scenario(spec *bk.Spec, seq []int, bound int) *sched.Config {
 				return "faults=" + strings.Join(u, ",")
 			}
 			xfail := func(sig, what string) { x.Fail(sig+"|"+sites(), what) }
+			// verdicts about one call name the faults injected during that call only
 			fail := func(op int, sig, what string) {
-				xfail(opNames[op]+"|"+sig, fmt.Sprintf("ops [%s], faults injected at %v: %s", seqName(seq), faultLog, what))
+				x.Fail(opNames[op]+"|"+sig+"|"+sitesFrom(opStart), fmt.Sprintf("ops [%s], faults injected at %v (during this call: %v): %s", seqName(seq), faultLog, faultLog[opStart:], what))
 			}
 			x.Go("client", func() {
 				for _, o := range seq {
 					before := nfaults
+					opStart = len(faultLog)
 					injecting = true
 					runOp(sto, spec, o, ref, uncertain, &injecting, func(sig, what string) {
 						if nfaults == before {
